@@ -73,7 +73,7 @@ theorem validChunk_ascii {T : Tables E} {t : Text} (h : validChunk T T.ascii t =
     | false => exact absurd ⟨rfl, by simp [hx]⟩ hc
 
 /-- **C01 (ascii clause, inputs that fit the window)** – partial: when the input is no longer than
-    `steps × chunk_size`, every regular candidate named `ascii` (main encoding or alternative) implies that every
+    `steps × chunk_size`, every candidate named `ascii` (main encoding, alternative, or the fallback match) implies that every
     input byte is below 0x80.  World hypotheses: the single-byte laws of C01, one character per byte at most, and
     `hascii` – the `ascii` decoder maps bytes ≥ 0x80 to non-ASCII characters (kernel-checked for the dumped
     windows-1252 table that `ascii` resolves to: `asciiLaw_now`).  What the hypothesis `Fits` excludes is exactly
@@ -85,10 +85,10 @@ theorem C01_ascii_fit_partial {W : World E L} {T : Tables E} {sort : Sorter E L}
     (hascii : ∀ x t, W.decode T.ascii x = .ok (some t) → isAsciiText t = true → x.all (· < 128) = true)
     {b : Bytes} {s : Settings} {incl excl : List E}
     (hincl : canonList T.ianaName s.incl = .ok incl) (hexcl : canonList T.ianaName s.excl = .ok excl)
-    (hfit : Fits b s) (hthr : s.thr.isNaN = false)
+    (hfit : Fits b s)
     {ms : List (Match E L)} (hb : b ≠ []) (h : fromBytes W T sort b s = .ok (.ok ms)) :
-    ∀ m ∈ ms, ∀ c ∈ m.entries, c.enc = T.ascii → Fl.ge c.chaos s.thr = false → b.all (· < 128) = true := by
-  intro m hm c hc henc hge
+    ∀ m ∈ ms, ∀ c ∈ m.entries, c.enc = T.ascii → b.all (· < 128) = true := by
+  intro m hm c hc henc
   have hctx : (ctxOf T b s).steps = 1 ∧ (ctxOf T b s).chunk = b.length := by
     unfold ctxOf; simp [C13_normWindow_fit hfit]
   -- `ascii` carries no mark: the whole input is what gets decoded
@@ -104,36 +104,38 @@ theorem C01_ascii_fit_partial {W : World E L} {T : Tables E} {sort : Sorter E L}
     simp [startIdxOf, hnb]
   obtain ⟨_, t, hdect, htext⟩ := C01_decodes hperm hmb laws hincl hexcl hb h m hm c hc
   rw [hstrip] at hdect
-  rcases fromBytes_facts hperm hincl hexcl hb h with hall | ⟨fb, rfl, hfb, _⟩
-  · have f := (Match.allEntries_iff.mp (hall m hm)) c hc
-    obtain ⟨p, acc, _, hp2, _, hp4, hp5, hp6, _, hp8, _⟩ := f.chunksFact
-    have hvalid : validChunk T c.enc t = some t ∨ t = [] := by
-      by_cases hte : t = []
-      · exact Or.inr hte
-      · left
-        cases hl : lazyOf T (ctxOf T b s) c.enc with
-        | false =>
-          have hpay : p.payload = some t := by rw [hp4 hl, htext]
-          have hlen : t.length ≤ (ctxOf T b s).chunk := by
-            rw [hctx.2]; exact hchars _ _ _ hdect
-          exact probeChunks_fit_valid hctx.1 hpay hlen hte hp6 hp8
-        | true =>
-          have hbom : p.bomHere = false := by rw [hp2, hnb]
-          exact probeChunks_fit_lazy_valid (c := ctxOf T b s) hctx.1 hctx.2 hb (hp5 hl) hbom hdect hp6 hp8
-    rw [henc] at hdect
-    rcases hvalid with hv | hte
-    · rw [henc] at hv
-      exact hascii b t hdect (validChunk_ascii hv)
-    · subst hte
-      exact hascii b [] hdect rfl
-  · -- a fallback entry has chaos = threshold and is excluded by `ge chaos thr = false`
-    simp only [List.mem_singleton] at hm
-    subst hm
-    have f := (Match.allEntries_iff.mp hfb) c hc
-    exfalso
-    rw [f.chaos] at hge
-    simp only [ctxOf] at hge
-    simp [Fl.ge, Fl.le, hthr] at hge
+  -- regular and fallback entries alike went through a chunk analysis in which no chunk was invalid
+  have hchunks : ∃ p acc, p.bomHere = bomHereOf (ctxOf T b s) c.enc ∧
+      (lazyOf T (ctxOf T b s) c.enc = false → p.payload = c.text) ∧
+      (lazyOf T (ctxOf T b s) c.enc = true → p.payload = none) ∧
+      probeChunks W T (ctxOf T b s) c.enc p = .ok acc ∧ acc.lazyHard = false := by
+    rcases fromBytes_facts hperm hincl hexcl hb h with hall | ⟨fb, rfl, hfb, _⟩
+    · have f := (Match.allEntries_iff.mp (hall m hm)) c hc
+      obtain ⟨p, acc, _, hp2, _, hp4, hp5, hp6, _, hp8, _⟩ := f.chunksFact
+      exact ⟨p, acc, hp2, hp4, hp5, hp6, hp8⟩
+    · simp only [List.mem_singleton] at hm
+      subst hm
+      exact ((Match.allEntries_iff.mp hfb) c hc).chunks
+  obtain ⟨p, acc, hp2, hp4, hp5, hp6, hp8⟩ := hchunks
+  have hvalid : validChunk T c.enc t = some t ∨ t = [] := by
+    by_cases hte : t = []
+    · exact Or.inr hte
+    · left
+      cases hl : lazyOf T (ctxOf T b s) c.enc with
+      | false =>
+        have hpay : p.payload = some t := by rw [hp4 hl, htext]
+        have hlen : t.length ≤ (ctxOf T b s).chunk := by
+          rw [hctx.2]; exact hchars _ _ _ hdect
+        exact probeChunks_fit_valid hctx.1 hpay hlen hte hp6 hp8
+      | true =>
+        have hbom : p.bomHere = false := by rw [hp2, hnb]
+        exact probeChunks_fit_lazy_valid (c := ctxOf T b s) hctx.1 hctx.2 hb (hp5 hl) hbom hdect hp6 hp8
+  rw [henc] at hdect
+  rcases hvalid with hv | hte
+  · rw [henc] at hv
+    exact hascii b t hdect (validChunk_ascii hv)
+  · subst hte
+    exact hascii b [] hdect rfl
 
 end Charset
 
@@ -212,11 +214,11 @@ theorem C01_ascii_fit_current (o : Oracle)
     (hchars : ∀ e x t, (worldNow o).decode e x = .ok (some t) → t.length ≤ x.length)
     {b : Bytes} {s : Settings} {incl excl : List Name}
     (hincl : canonList ianaNow s.incl = .ok incl) (hexcl : canonList ianaNow s.excl = .ok excl)
-    (hfit : Fits b s) (hthr : s.thr.isNaN = false)
+    (hfit : Fits b s)
     {ms : List (Match Name Name)} (hb : b ≠ [])
     (h : fromBytes (worldNow o) tablesNow sortMatches b s = .ok (.ok ms)) :
-    ∀ m ∈ ms, ∀ c ∈ m.entries, c.enc = tablesNow.ascii → Fl.ge c.chaos s.thr = false → b.all (· < 128) = true :=
+    ∀ m ∈ ms, ∀ c ∈ m.entries, c.enc = tablesNow.ascii → b.all (· < 128) = true :=
   C01_ascii_fit_partial sortMatches_perm marksMultiByte_now (lazyLaws_now o) hchars (by decide +kernel) (asciiLaw_now o)
-    hincl hexcl hfit hthr hb h
+    hincl hexcl hfit hb h
 
 end Charset
